@@ -3,7 +3,7 @@
 From Coq Require Import String.
 From Coq Require Import List Ascii ZArith Bool Lia Sorting.Sorted Sorting.Permutation.
 From CGV Require Import Base.PyBase Base.PyVal Base.NxGraph Resolve.Bonding Resolve.GraphOps Resolve.Pipeline
-     Resolve.MapDefs Resolve.Witness Resolve.SortProofs Resolve.VirtualProofs Resolve.SortGraphProofs Resolve.DriversInst.
+     Resolve.MapDefs Resolve.Witness Resolve.SortProofs Resolve.VirtualProofs Resolve.SortGraphProofs Resolve.DriversInst Resolve.NameProofs.
 From CGV Require Import Hydro.SquashDefs.
 From CGV Require Hydro.SquashProofs.
 Import ListNotations.
@@ -88,6 +88,51 @@ Proof.
   eexists. split; [vm_compute; reflexivity|]. split; reflexivity.
 Qed.
 
+(** ---- atom names (set_atom_names_atomistic as repaired in /repo 8dbd471: an atom shared through the squash operator is
+    named once, later indices step over taken names) *)
+(** names_unique_per_coarse_node: the names of each coarse node's atoms, read from the returned fine graph, are pairwise
+    distinct - provided that, whenever a coarse node is processed, its already-named atoms carry distinct names
+    ([used_distinct]; it can only fail when a coarse node shares atoms with two DIFFERENT earlier coarse nodes), the
+    atoms of a coarse node are listed once, and the element strings contain no digit *)
+Theorem C12_names_unique_per_coarse_node : forall (E : list pystr), Forall digit_free E ->
+  forall mol meta fgs mol' fgs', set_atom_names mol meta fgs = Ok (mol', fgs') ->
+  used_distinct (fraglist_of meta fgs) (mol, fgs, []) -> (forall g, In g (fraglist_of meta fgs) -> NoDup (snd g)) -> elemsE E mol ->
+  forall g, In g (fraglist_of meta fgs) -> NoDup (map (name_in mol') (snd g)).
+Proof. intros E HE. exact (names_unique_per_coarse_node E (label_inj_list E HE)). Qed.
+(** element ++ str(index) determines element and index when the element has no digit *)
+Theorem C12_label_injective : forall e e' i j, digit_free e -> digit_free e' -> 0 <= i -> 0 <= j ->
+  atom_label e i = atom_label e' j -> e = e' /\ i = j.
+Proof. exact label_inj. Qed.
+(** the pure form of one pass: the names given to one coarse node are pairwise distinct and new names avoid the taken ones *)
+Theorem C12_assign_unique : forall (E : list pystr),
+  (forall e e' i j, In e E -> In e' E -> 0 <= i -> 0 <= j -> atom_label e i = atom_label e' j -> i = j) ->
+  forall used ds idx vs, 0 <= idx -> incl (news ds) E -> incl (olds ds) used -> NoDup (olds ds) -> assign used idx ds = Ok vs ->
+  NoDup vs /\ length vs = length ds /\
+  forall v, In v vs -> In v (olds ds) \/ exists e i, In e E /\ idx <= i /\ v = VStr (atom_label e i) /\ ~ In v used.
+Proof. exact assign_spec. Qed.
+
+(** witnesses: atoms as (key, element, fragid list); coarse graphs as node lists *)
+Definition atom (k : Z) (el : string) (fid : list Z) : nrec :=
+  {| nk := k; na := [(S "element", VStr (S el)); (S "fragid", VList (map VInt fid))]; nadj := [] |}.
+Definition cgraph (ks : list Z) : graph := map (fun k => {| nk := k; na := []; nadj := [] |}) ks.
+Definition cmeta (ks : list Z) : graph := map (fun k => {| nk := k; na := []; nadj := [] |}) ks.
+Definition names_after (mol meta : graph) (fgs : fgraphs) : res (list (option pyval) * bool) :=
+  r <- set_atom_names mol meta fgs ;; Ok (map (name_in (fst r)) (node_keys (fst r)), names_unique (fst r) (snd r)).
+(** the former witness of class shared_atom_names ({[#A][#B]}.{#A=CC[!],#B=[!]CC}, heavy atoms): atom 1 is shared by coarse
+    nodes 0 and 1; it keeps C1 and coarse node 1 continues with C2 - unique in both (fixed in /repo 8dbd471) *)
+Example C12_shared_atom_named_once :
+  names_after [atom 0 "C" [0]; atom 1 "C" [0; 1]; atom 2 "C" [1]] (cmeta [0; 1]) [(0, cgraph [0; 1]); (1, cgraph [1; 2])]
+  = Ok ([Some (VStr (S "C0")); Some (VStr (S "C1")); Some (VStr (S "C2"))], true).
+Proof. vm_compute. reflexivity. Qed.
+(** the residual class shared_from_two_owners ({[#A]1.[#B][#K]1}.{#A=CC[!],#B=CC[!],#K=[!]CC[!]}, heavy atoms): K holds atom 1
+    (first named in A) and atom 3 (first named in B), both called C1: the faithful model REFUTES uniqueness here *)
+Theorem C12_names_refuted :
+  two_owners [(0, cgraph [0; 1]); (1, cgraph [2; 3]); (2, cgraph [1; 3])] = true /\
+  names_after [atom 0 "C" [0]; atom 1 "C" [0; 2]; atom 2 "C" [1]; atom 3 "C" [1; 2]] (cmeta [0; 1; 2])
+              [(0, cgraph [0; 1]); (1, cgraph [2; 3]); (2, cgraph [1; 3])]
+  = Ok ([Some (VStr (S "C0")); Some (VStr (S "C1")); Some (VStr (S "C0")); Some (VStr (S "C1"))], false).
+Proof. split; vm_compute; reflexivity. Qed.
+
 (** ---- input-only dependence *)
 (** frag_order_irrelevant: the order of the definitions in a fragment block with unique names is immaterial
     for every lookup, hence for the whole resolution step *)
@@ -133,6 +178,9 @@ Theorem C12_resolve_all_is_driver_instance : forall trs st, inv trs st -> st_cou
   end.
 Proof. exact resolve_all_is_instance. Qed.
 
+Print Assumptions C12_names_unique_per_coarse_node.
+Print Assumptions C12_label_injective.
+Print Assumptions C12_names_refuted.
 Print Assumptions C12_sort_keys.
 Print Assumptions C12_sort_sorted.
 Print Assumptions C12_block_contiguous.
